@@ -462,6 +462,17 @@ func inventory(t *testing.T, sc *c04Scenario, seed sim.Seed) ([]wireMsg, error) 
 			return
 		}
 		log = adv.Log
+		// parties run concurrently within a scheduler step: the recording order of
+		// their sends is the Go scheduler's; everything derived from the log must not depend on it
+		sort.SliceStable(log, func(i, j int) bool {
+			if log[i].CID != log[j].CID {
+				return log[i].CID < log[j].CID
+			}
+			if log[i].From != log[j].From {
+				return log[i].From < log[j].From
+			}
+			return log[i].To < log[j].To
+		})
 		invDigest[key] = res.digest
 	})
 	if herr != nil {
